@@ -730,4 +730,19 @@ theorem checkSigs_no_panic [DecidableEq Key] (cfg : Cfg) (C : Crypto Key Sig)
     | reject => simp
     | panic => exact absurd h (checkAll_no_panic cfg C.toLib _ hvf hser tx.sigs)
 
+
+/-! ## The transaction object -/
+
+theorem checkSigsObj_ok [DecidableEq Key] (cfg : Cfg) (C : Crypto Key Sig) (tx : Tx) (pre addrs : List Addr)
+    (h : (checkSigsObj cfg C ⟨tx, pre⟩).1 = .ok addrs) :
+    checkSigs cfg C tx = .ok addrs ∧ (checkSigsObj cfg C ⟨tx, pre⟩).2 = ⟨tx, addrs⟩ := by
+  unfold checkSigsObj at h ⊢
+  cases hc : checkSigs cfg C tx with
+  | ok as =>
+    simp only [hc, Verdict.ok.injEq] at h ⊢
+    subst h
+    exact ⟨rfl, rfl⟩
+  | reject => simp [hc] at h
+  | panic => simp [hc] at h
+
 end OntVerif.Proofs.SigCheck
